@@ -236,8 +236,10 @@ static void pair_child(const void *job, size_t n) {
 	int tids[3]; int nt = 0;
 	for (int i = 0; i < pair_n; i++) if (pair_e[i] >= N_HL + N_LL) { /* receiver entries: queue the message, the receiver thread is the actor */
 			int k = pair_e[i] - N_HL - N_LL; uint8_t d[16]; int dl; uplink_payload((uint8_t) (0x80 + k % 128), d, &dl); uint8_t m[40], f[90]; int ml = rc_build_msg(m, SB.n[k / 128 == 1 ? 1 : 0].addr, 0, (uint8_t) (0x80 + k % 128), d, dl); env_push_quiet(f, rc_frame(f, m, (size_t) ml, 1)); }
+	vs_window(1);
 	for (int i = 0; i < pair_n; i++) if (pair_e[i] < N_HL + N_LL) tids[nt++] = vs_spawn(pair_thread, (void *) (intptr_t) i);
 	for (int i = 0; i < nt; i++) vs_join_tid(tids[i]);
+	vs_window(0);
 	hx_quiesce(); hx_emit_ledger_violations("C11");
 	res_printf("O 1 1\n"); hx_emit_trace(); res_finish();
 }
